@@ -21,6 +21,8 @@ CACHE = os.environ.get('RCE_VERIF_CACHE', os.path.join(VERIF, '.cache'))
 NATIVE_SRC = os.path.join(VERIF, 'native')
 
 ENV = dict(os.environ, CARGO_NET_OFFLINE='true', CARGO_TERM_COLOR='never')
+# the helper only (never the MIR dump): dev profile (debug assertions, overflow checks) but optimised -- the search replays need the speed
+HELPER_ENV = dict(ENV, CARGO_PROFILE_DEV_OPT_LEVEL='2')
 
 
 class BuildError(Exception):
@@ -134,11 +136,24 @@ def build_helper(repo=REPO):
         shutil.copy(os.path.join(NATIVE_SRC, 'rce_verif_board.rs'), os.path.join(src, 'board', 'rce_verif_board.rs'))
         shutil.copy(os.path.join(NATIVE_SRC, 'rce_verif_search.rs'), os.path.join(src, 'search', 'rce_verif_search.rs'))
         shutil.copy(os.path.join(NATIVE_SRC, 'rce_verif_uci.rs'), os.path.join(src, 'uci', 'rce_verif_uci.rs'))
+        # optional part (search replay: reference negamax, mate oracle, cache-neutralising hook at the entry of the inner
+        # search).  It depends on more of the crate's private names than the rest, so when it does not compile on a changed
+        # tree the helper is built without it and the search replays answer "unavailable".
+        sp = os.path.join(src, 'search.rs')
+        ss = open(sp).read()
+        ss2, nh = re.subn(r'(fn alpha_beta\s*\((?:[^()]|\([^()]*\))*\)\s*->\s*Score\s*\{)',
+                          r'\1\n        #[cfg(rce_verif_cachehook)]\n        rce_verif_search::cache_off_hook();\n', ss, count=1)
+        if nh == 1:
+            open(sp, 'w').write(ss2)
         tdir = os.path.join(CACHE, 'target-native')
-        env = dict(ENV, RUSTFLAGS='--cfg rce_verif -A warnings')
         cmd = ['cargo', '+nightly', 'build', '--offline', '--manifest-path', os.path.join(scratch, 'Cargo.toml'),
                '--target-dir', tdir, '--bin', 'rust_chess_engine']
-        p = subprocess.run(cmd, capture_output=True, text=True, env=env, cwd=scratch)
+        flags = '--cfg rce_verif -A warnings --cfg rce_verif_search2' + (' --cfg rce_verif_cachehook' if nh == 1 else '')
+        p = subprocess.run(cmd, capture_output=True, text=True, env=dict(HELPER_ENV, RUSTFLAGS=flags), cwd=scratch)
+        if p.returncode != 0:
+            if os.environ.get('VERIF_DEBUG'):
+                sys.stderr.write('optional search-replay part of the helper does not build:\n' + p.stderr[-3000:] + '\n')
+            p = subprocess.run(cmd, capture_output=True, text=True, env=dict(HELPER_ENV, RUSTFLAGS='--cfg rce_verif -A warnings'), cwd=scratch)
         if p.returncode != 0:
             raise BuildError('native helper build failed:\n' + p.stderr[-4000:])
         shutil.copy(os.path.join(tdir, 'debug', 'rust_chess_engine'), out)
